@@ -132,3 +132,22 @@ HARNESS(h_min_stringref) {
   P(r == want, "min_length_for_stringref matches the stringref specification table");
   WIT(r == 7);
 }
+
+/* ---------------- C05 / C07: a string reference (tag 25) resolves to the registered string or is rejected with stringref_too_large - never an out-of-range access ---------------- */
+#ifndef KREF
+#define KREF 1
+#endif
+static void run_ref(u8 first) {
+  u8* s = malloc(N); ASSUME(s != 0); memcpy(s, IN_s, N); s[0] = first;   /* the head byte is a CONSTANT per call site (read_item's dispatch folds) */
+  struct S_struct_2erec_ev ev[2]; memset(ev, 0, sizeof ev); u32 nev = 0; u64 consumed = 0;
+  IRC_THROW_ALLOWED = 0;
+  u32 ec = k_cbor_stringref(KREF, s, N, ev, 2, &nev, &consumed);
+  if (first >= KREF) P(ec != 0 && nev == 0, "an index that is not smaller than the number of registered strings is rejected (stringref_too_large), no foreign exception");
+  else P(ec == 0 && nev == 1 && ev[0].f0 == EV_STRING && ev[0].f3 == 2 && ev[0].f4.a[0] == 's' && ev[0].f4.a[1] == '0' + first, "the reference resolves to exactly the registered string");
+  WIT(ec == 0 && nev == 1); WIT(ec != 0);
+}
+#define CR(i) else if (IN_info == i) run_ref((u8)i);
+HARNESS(h_stringref) {
+  HAVOC_ARR(IN_s, N); HAVOC(IN_info);
+  if (0) {} CR(0) CR(1) CR(2) CR(3) CR(23)
+}
